@@ -6,6 +6,7 @@ CONSTANTS
   MaxDepth = 1
   FixedLines = TRUE
   FixedFwd = FALSE
+  KSecondFull = FALSE
   PosMaxLines = 2
   NodesHavePos = TRUE
   DevOn = {"byte"}
